@@ -10,8 +10,9 @@ package main
 //	        is the i-th of its n available values, the value becomes the ((i+s) mod n)-th ("relative adjustments
 //	        win", "wrap around in both directions"); modes not in R take their value from V; a mode with step 0 takes
 //	        the value from V (sc-api reading) or keeps its current one (counted as an observation, not judged).
-//	UpdateModeValues{relative: R} (nothing else)      the stepped modes as above; what happens to modes not named
-//	        in R is left open by the documentation (observed and counted, not judged).
+//	UpdateModeValues{relative: R} (nothing else)      the stepped modes as above, a step of 0 keeps the current value
+//	        (there is no absolute value it could take instead); what happens to modes not named in R is left open by
+//	        the documentation (observed and counted, not judged).
 
 import (
 	"context"
@@ -237,10 +238,14 @@ func modeCase(r *vk.Run, idx int) {
 					continue
 				}
 				step := int32(rng.Range(-7, 7))
-				if step == 0 {
+				if step == 0 && !rng.Chance(1, 2) {
 					step = 1
 				}
+				// a step of 0 in a request without mode_values is the (i+0) mod n-th value: the mode stays where it is
 				rel[name] = step
+				if step == 0 {
+					zeroStep = true
+				}
 				if i := indexOf(name, cur[name]); i >= 0 {
 					n := len(available[name])
 					want[name] = available[name][refStep(i, step, n)]
